@@ -25,6 +25,37 @@ CHECKS = {
     note="Trusted: Kani's MIR->goto translation, CBMC, cadical. Bounds: capacity 8 (2x4 vectored), <=2 fills, nesting <=2. "
          "Outside: BytesMut, memmap2, BorrowedBuf, bumpalo, allocator_api, BufferRef. Known finding F8 (Uninit after a fill) "
          "is reported as KNOWN-FINDING by two dedicated harnesses."),
+ "C11": dict(
+    engine="kani",
+    technique="bounded model checking of the compiled compio-io helpers (Kani/CBMC): differential against a reference "
+              "written in the harness; chunk sizes, Interrupted/hard faults, positions and payloads are solver-chosen",
+    category="proof",
+    text="Proof within bounds: read_exact[_at], write_all[_at], append, take, scalar readers/writers, the default "
+         "read_vectored/write_vectored, one inductive step of the read_vectored_exact and write_vectored_all loops, and the "
+         "in-memory readers/writers/cursors (&[u8], [u8;N], &mut [u8], Cursor<_>, Vec<u8>) transfer exactly the bytes the "
+         "reference does for every chunking of a <=6-byte payload, every placement of <=1-2 Interrupted and <=1 hard error, "
+         "every position (any u64 where stated) and capacity 4; failures surface as UnexpectedEof/WriteZero/the injected kind; "
+         "no panic/overflow/out-of-bounds is reachable.",
+    design_ref="DESIGN.md §1 C11",
+    note="Trusted: Kani, CBMC, cadical; model streams never return Pending. Outside (measured CBMC out-of-memory): the complete "
+         "read_vectored_exact / write_vectored_all loops (their bodies are checked as inductive steps), copy beyond 1 byte, "
+         "split halves, BufReader/BufWriter/Buffer, read_to_end/read_to_string. Four genuine defects found here were repaired "
+         "(known_findings.json: fixed)."),
+ "C13": dict(
+    engine="kani",
+    technique="bounded model checking of the compiled framers and ancillary codecs (Kani/CBMC): enclose->concatenate->cut at a "
+              "solver-chosen prefix->extract; arbitrary peer bytes as hostile input; push/iterate round trip of control messages",
+    category="proof",
+    text="Proof within bounds: LengthDelimited (one harness per width 1,2,4,8 quick; 3,5,6,7 thorough; either endianness), "
+         "CharDelimited<'\\n'>, AnyDelimited(\\r\\n) and NoopFramer: two frames of <=3 symbolic payload bytes are reported "
+         "exactly from the prefix containing their last byte, in order, nothing merged/split/dropped; for <=10 arbitrary bytes "
+         "extract never panics, a reported frame lies inside the buffer and consuming it makes progress. Ancillary: <=3 messages "
+         "round-trip through AncillaryBuf/AncillaryBuilder/AncillaryIter, BufferTooSmall exactly when space is insufficient, "
+         "every slice handed to decode() lies inside the control buffer.",
+    design_ref="DESIGN.md §1 C13",
+    note="Trusted: Kani, CBMC, cadical, libc's Rust CMSG_* functions as compiled. Buffers are ArrayVec<u8,24> (Vec roots make CBMC "
+         "explore reallocation). Outside: the Framed Stream/Sink state machines (boxed futures + Buffer<B>: CBMC out of memory "
+         "beyond one frame), BytesCodec, serde_json codec, Windows CMSG. Two genuine defects repaired (known_findings.json: fixed)."),
 }
 
 NOT_APPLICABLE = {
